@@ -313,6 +313,14 @@ func (b *body) binary(x *ast.BinaryExpr, et ty, en env, bs *binds) (string, ty) 
 		return fmt.Sprintf("(%s ∨ %s)", l, r), et
 	}
 	r, rt := b.expr(x.Y, en, bs)
+	if b.bm != nil && b.bm.typed && (x.Op == token.QUO || x.Op == token.REM) && (lt.c == cInt || rt.c == cInt) {
+		if tv := b.t.info.Types[x.Y]; tv.Value == nil {
+			// integer division by a non-constant: Go panics on a zero divisor
+			n := en.fresh("d")
+			*bs = append(*bs, fmt.Sprintf("(Res.ofOption %s Panic.divZero (nonZero %s)).bind fun _ %s =>", en.hv, r, n))
+			r = n
+		}
+	}
 	return b.arith(x.Op, l, lt, r, rt, et)
 }
 
@@ -1322,6 +1330,15 @@ func main() {
 			t.xferFunc(fd)
 		}
 	}
+	// the nine conversions as whole functions (guard, length, prologue, loops, returns), next to their kernels
+	convFn := map[string]string{}
+	for _, fd := range all {
+		if isConv(fd) {
+			if why := t.xferConv(fd); why != "" {
+				convFn[goName(fd)] = why
+			}
+		}
+	}
 	for _, fd := range all {
 		obj := info.Defs[fd.Name]
 		if isConv(fd) {
@@ -1331,6 +1348,11 @@ func main() {
 			} else {
 				rep.Translated[goName(fd)] = leanName(obj) + "_k"
 				rep.Skeleton[goName(fd)] = facts
+			}
+			if why, bad := convFn[goName(fd)]; bad {
+				rep.Untranslatable[goName(fd)+"_fn"] = why
+			} else {
+				rep.Translated[goName(fd)+"_fn"] = leanName(obj) + "_fn"
 			}
 			continue
 		}
@@ -1350,18 +1372,20 @@ func main() {
 			return "Kernels"
 		case t.shape[n] == "xfer":
 			return "Xfer"
+		case t.shape[n] == "convfn":
+			return "ConvFn"
 		case strings.HasPrefix(short, "Buffer_") || strings.HasPrefix(short, "C_") || strings.HasPrefix(short, "PoolAllocator_") || short == "Alloc":
 			return "Buffer"
 		}
 		return "Scalar"
 	}
 	h := sha256.New()
-	for _, grp := range []string{"Scalar", "Kernels", "Buffer", "Xfer"} {
+	for _, grp := range []string{"Scalar", "Kernels", "Buffer", "Xfer", "ConvFn"} {
 		var sb strings.Builder
 		sb.WriteString("/- GENERATED by harness/go2lean from the Go sources of pipelined.dev/signal - do not edit.\n   Regenerated by ./check on every run; the theorems of SignalGen/Eq/*.lean relate these definitions to the model. -/\n")
 		if grp == "Scalar" {
 			sb.WriteString("import SignalGen.Prelude\n")
-		} else if grp == "Xfer" {
+		} else if grp == "Xfer" || grp == "ConvFn" {
 			sb.WriteString("import SignalGen.Gen.Buffer\n")
 		} else {
 			sb.WriteString("import SignalGen.Gen.Scalar\n")
